@@ -6,7 +6,12 @@ Tie: differential correspondence of the model with (a) LT.set_value_in_millis, (
 BasicHeader.initialize_with_mib_request_and_rhl (float seconds glue included, fractional milliseconds too), (c) packets
 emitted by a real Router for every transport type (GUC also through the location service: request buffered, released
 by the LS reply), (d) BasicHeader.decode_from_bytes, (e) the remaining lifetime / hop limit in the GN-DATA.indication of
-all five indication sites (SHB, TSB, GBC, GAC, GUC) for a sweep of LT octets, (f) the receiver guard.
+all five indication sites (SHB, TSB, GBC, GAC, GUC) for a sweep of LT octets, (f) the receiver guard, (g) Round 5: packets
+originated with itsGnSecurity ENABLED (real SignService from sec_common, MHL read from the signed payload by an independent
+parse) for every requested hop limit 0..255, MIB defaults, lifetimes, all transports and security profiles (model op
+`orig`), (h) Round 5: two / three originating threads on one station under harness/dsched.py (every function of
+basic_header.py pre-empted at bytecode granularity, pre-emption bound 1 exhaustively for the two-request scenarios):
+every packet carries the lifetime and hop limits of its OWN request.  Regenerated facts: harness/gen_lt.py.
 Oracle: independent transcription of the property text (`oracle_*` below) applied to the REAL outputs.
 """
 from __future__ import annotations
@@ -44,7 +49,11 @@ ASSUMPTIONS = [
     "interface convention (property text): request.max_hop_limit 0 and 1 mean 'not specified' -> itsGnDefaultHopLimit "
     "(Lean: LTSpec.requestedHops); a multi-hop request can therefore not ask for hop limit 1",
     "secured packets (basic-header NH = 2): the hop guard and the indication are reached only after the verify service (C03/C05); "
-    "one secured SHB origination is exercised, the receive side is not",
+    "the ORIGINATION of secured packets is swept (every hop limit, lifetimes, profiles); on the receive side one secured "
+    "SHB / GBC / GAC packet each is delivered to a verifying station and its indication judged",
+    "originating threads: schedules are explored at the bytecode granularity of geonet/basic_header.py's functions and at "
+    "the Router's lock boundaries, pre-emption bound 1 (+ a few PCT samples); state shared through other modules is "
+    "covered by the regenerated fact `sharedWrites` for basic_header.py only",
 ]
 
 UNITS = (50, 1000, 10000, 100000)
@@ -940,8 +949,9 @@ def bridge_report(ctx):
 def run(ctx):
     ctx.extra["rule"] = ("lifetimes: integer-ms requests through LT.set_value_in_millis and the BasicHeader API "
                          "(thorough: every ms 0..7 000 000); all 256 lifetime codes; hop limits 0..255 x MIB defaults x 7 "
-                         "transports through a real Router; receiver guard pairs. distinct_nontrivial counts distinct "
-                         "(multiplier,base) results, codes, router cases and guard pairs")
+                         "transports through a real Router; receiver guard pairs; security-enabled originations (hop limits 0..255, "
+                         "lifetimes, profiles); schedules of 2-3 originating threads. distinct_nontrivial counts distinct "
+                         "(multiplier,base) results, codes, router cases, guard pairs, secured cases and schedules")
     capped = detect_capped()
     dropped = bridge_report(ctx)
     ctx.extra.setdefault("extraction", {})["C20"] = ("bridged (" + ", ".join(m for m in MODULES if m != "Props.C20") + ")"
